@@ -68,7 +68,8 @@ type Param struct {
 type PureFn struct {
 	Name   string
 	Params []Param
-	Body   Expr
+	Body   Expr   // nil for an uninterpreted function without definition
+	Result string // result type text (uf only; default int)
 	Text   string
 }
 
@@ -561,6 +562,32 @@ func ParseContracts(paths []string) (*Contracts, error) {
 			switch l.kw {
 			case "pure", "uf":
 				cur, curLoop = nil, nil
+				if l.kw == "uf" && !strings.Contains(l.text[strings.Index(l.text, ")")+1:], "=") {
+					// uninterpreted function without a definition: uf name(p T, ...) ResultType
+					rp := strings.Index(l.text, ")")
+					lp := strings.Index(l.text, "(")
+					if lp < 0 || rp < lp {
+						return nil, fail(fmt.Errorf("uf: missing parameter list"))
+					}
+					name := strings.TrimSpace(l.text[:lp])
+					var params []Param
+					if ps := strings.TrimSpace(l.text[lp+1 : rp]); ps != "" {
+						for _, p := range strings.Split(ps, ",") {
+							f := strings.Fields(p)
+							if len(f) == 1 {
+								params = append(params, Param{Name: f[0], Type: "int"})
+							} else {
+								params = append(params, Param{Name: f[0], Type: f[1]})
+							}
+						}
+					}
+					res := strings.TrimSpace(l.text[rp+1:])
+					if res == "" {
+						res = "int"
+					}
+					cs.UFs[name] = &PureFn{Name: name, Params: params, Result: res, Text: l.text}
+					continue
+				}
 				eq := strings.Index(l.text, "=")
 				// find the '=' that follows the closing paren of the parameter list
 				rp := strings.Index(l.text, ")")
